@@ -121,9 +121,10 @@ pub struct Report {
 }
 impl Report {
     pub fn violation(&mut self, what: &str, replay: Value) {
-        // the first 20 are kept, after that one per message class (so that many repetitions of one finding
+        // the first 20 are kept, after that one per message class - the head and the tail of the message - (so that many repetitions of one finding
         // cannot crowd out a different one)
-        let class: String = what.chars().take(56).collect();
+        let n = what.chars().count();
+        let class: String = what.chars().take(56).chain(what.chars().skip(n.saturating_sub(40).max(56))).collect();
         let new_class = self.classes.insert(class);
         if self.violations.len() < 20 || (new_class && self.violations.len() < 200) {
             self.violations.push(json!({"what": what, "replay": replay}));
